@@ -551,4 +551,159 @@ example : runLets [] [.prim .eq (.str ['a']), .not (.ref 0), .and (.ref 0) (.ref
             .and (.prim .eq (.str ['a'])) (.not (.prim .eq (.str ['a']))),
             .or (.and (.prim .eq (.str ['a'])) (.not (.prim .eq (.str ['a'])))) (.prim .eq (.str ['a']))] := by rfl
 
+/-! ## 8. plain callables are partial functions: raising = no match, on every path
+
+A name / attribute query, the argument of `upto` or of `where` may be a plain Python callable.  Whatever it
+raises for a node (the model's `Out.raise` carries no exception class: no path can depend on it), the
+node does not match and nothing escapes.  `ρ.call k` is arbitrary in all theorems. -/
+
+/-- a callable in name or attribute position matches a value iff the call RETURNS something true -/
+theorem callable_matches_iff (ρ : Env) (k : Nat) (v : Val) :
+    ((NameQ.fn k).eval ρ v = true ↔ ρ.call k v = .ret true) ∧
+    ((AttrQ.fn k).eval ρ v = true ↔ ρ.call k v = .ret true) := by
+  constructor <;> (simp only [NameQ.eval, AttrQ.eval, guard]; cases h : ρ.call k v <;> simp)
+
+example : (NameQ.fn 100).eval ⟨natCall ∘ (· - 100), id⟩ (.str []) = false ∧
+    (NameQ.fn 100).eval ⟨natCall ∘ (· - 100), id⟩ (.str ['L']) = true := by decide
+
+/-- whatever the levels and options: every returned node satisfies the last level's query -/
+theorem selected_satisfies_last (ρ : Env) (qs : List Query) (nodes : List Node) (deep : Bool) (res : List Node)
+    (h : selectNodes ρ qs nodes deep = some res) (q : Query) (hq : qs.getLast? = some q) :
+    ∀ e ∈ res, q.eval ρ e = true := by
+  intro e he
+  cases qs with
+  | nil => cases h
+  | cons q0 qs =>
+    have hc := (select_mem_iff ρ q0 qs nodes deep res h e).mp he
+    have hl : ((q0 :: qs).map (Query.eval ρ)).getLast? = some (q.eval ρ) := by
+      rw [List.getLast?_map, hq]; rfl
+    exact hc.last_holds _ hl
+
+/-- a node for whose name the callable of the last level raises (or returns something false) is not
+returned by select / find, at any number of levels, deep or not, bare or in a tuple; in attribute position
+some attribute of a returned node made the callable return true -/
+theorem raising_callable_not_selected (ρ : Env) (qs : List Query) (nodes : List Node) (deep : Bool) (res : List Node)
+    (k : Nat) (as : List AttrQ) :
+    (selectNodes ρ (qs ++ [.name (.fn k)]) nodes deep = some res → ∀ e ∈ res, ρ.call k e.name = .ret true) ∧
+    (selectNodes ρ (qs ++ [.tuple (.fn k) as]) nodes deep = some res → ∀ e ∈ res, ρ.call k e.name = .ret true) ∧
+    (∀ n, selectNodes ρ (qs ++ [.tuple n [.fn k]]) nodes deep = some res →
+        ∀ e ∈ res, ∃ a ∈ e.attrs, ρ.call k a = .ret true) := by
+  refine ⟨?_, ?_, ?_⟩
+  · intro h e he
+    have := selected_satisfies_last ρ _ nodes deep res h (.name (.fn k)) (by simp) e he
+    exact (callable_matches_iff ρ k e.name).1.mp (by simpa [Query.eval] using this)
+  · intro h e he
+    have := selected_satisfies_last ρ _ nodes deep res h (.tuple (.fn k) as) (by simp) e he
+    simp only [Query.eval, Bool.and_eq_true] at this
+    exact (callable_matches_iff ρ k e.name).1.mp this.1
+  · intro n h e he
+    have := selected_satisfies_last ρ _ nodes deep res h (.tuple n [.fn k]) (by simp) e he
+    simp only [Query.eval, attrsMatch, List.isEmpty_cons, Bool.false_or, Bool.and_eq_true, List.any_eq_true,
+      List.mem_cons, List.not_mem_nil, or_false, exists_eq_left] at this
+    obtain ⟨_, a, ha, hm⟩ := this
+    exact ⟨a, ha, (callable_matches_iff ρ k a).2.mp hm⟩
+
+/-- the demo of the round-9 change: names '' (IndexError), 0 and 5 (TypeError) under `'A' <= n[0] <= 'Z'`,
+and 0 (ZeroDivisionError) / strs (TypeError) under `10 % n == 0`: only the nodes on which the call returns
+true come back, in document order -/
+example :
+    let ρ : Env := ⟨fun k v => natCall (k - 100) v, id⟩
+    let doc := Tree.node .none [] [.node (.str ['L']) [] [.node (.str []) [] [], .node (.str ['A']) [] []],
+      .node (.str []) [] [], .node (.int 0) [] [], .node (.int 5) [] [], .node (.str ['A']) [] []]
+    entryFind ρ (top 0 doc) [.name (.fn 100)] false = some [[0, 0], [0, 0, 1], [0, 4]] ∧
+    entrySelect ρ (top 0 doc) [.name (.fn 102)] false false = some [[0, 3]] := by decide
+
+/-- the same for the entry queries built from a callable: any_(f), all_(f), child_query(f) -/
+theorem raising_callable_entry_queries (ρ : Env) (k : Nat) (e : Node) :
+    ((∀ a ∈ e.attrs, ρ.call k a ≠ .ret true) → (EQ.anyAttr (.fn k)).eval ρ e = false) ∧
+    ((∃ a ∈ e.attrs, ρ.call k a ≠ .ret true) → (EQ.allAttr (.fn k)).eval ρ e = false) ∧
+    ((∀ c ∈ e.kids, ρ.call k c.name ≠ .ret true) → (EQ.child (.fn k) none).eval ρ e = false) := by
+  refine ⟨?_, ?_, ?_⟩
+  · intro h
+    simp only [EQ.eval, List.any_eq_false]
+    intro a ha hm
+    exact h a ha ((callable_matches_iff ρ k a).2.mp hm)
+  · intro ⟨a, ha, hn⟩
+    simp only [EQ.eval, List.all_eq_false]
+    exact ⟨a, ha, fun hm => hn ((callable_matches_iff ρ k a).2.mp hm)⟩
+  · intro h
+    simp only [EQ.eval, List.any_eq_false]
+    intro c hc hm
+    exact h c hc ((callable_matches_iff ρ k c.name).1.mp hm)
+
+example : (EQ.allAttr (.fn 102)).eval ⟨fun k v => natCall (k - 100) v, id⟩ ⟨[], .node .none [.int 5, .int 0] [], [0]⟩ = false := by
+  decide
+
+/-- `Entry.upto(f)` / `Result.upto(f)`: the ancestor returned made the callable return true, and every nearer
+ancestor made it return false or raise -/
+theorem upto_callable (ρ : Env) (k : Nat) (n a : Node) (h : n.upto (Query.eval ρ (.name (.fn k))) = some a) :
+    ρ.call k a.name = .ret true ∧
+    ∃ nearer further, n.ancestors = nearer ++ a :: further ∧ ∀ b ∈ nearer, ρ.call k b.name ≠ .ret true := by
+  simp only [Node.upto, List.find?_eq_some_iff_append] at h
+  obtain ⟨hm, as, bs, hab, hn⟩ := h
+  refine ⟨(callable_matches_iff ρ k a.name).1.mp (by simpa [Query.eval] using hm), as, bs, hab, ?_⟩
+  intro b hb hr
+  have := hn b hb
+  simp [Query.eval, (callable_matches_iff ρ k b.name).1.mpr hr] at this
+
+example : (Node.mk [.node (.str []) [] [], .node (.str ['A']) [] []] (.node .none [] []) [0, 0, 0]).upto
+    (Query.eval ⟨fun k v => natCall (k - 100) v, id⟩ (.name (.fn 100))) = some ⟨[], .node (.str ['A']) [] [], [0]⟩ := by rfl
+
+/-- `where(f)` with a plain callable (called on the entry itself): a Result keeps exactly its own children on
+which `f` returns something true, in their order; an Entry gives all its children or nothing; a raise
+counts as false -/
+theorem where_callable_exact (f : Node → Out) (children : List Node) (e : Node) :
+    (∀ n, n ∈ resultWhereFn f children ↔ n ∈ children ∧ f n = .ret true) ∧
+    (resultWhereFn f children).Sublist children ∧
+    (f e = .ret true → entryWhereFn f e = e.kids) ∧ (f e ≠ .ret true → entryWhereFn f e = []) := by
+  have hg : ∀ o : Out, guard o = true ↔ o = .ret true := by
+    intro o; cases o with
+    | ret b => cases b <;> simp [guard]
+    | raise => simp [guard]
+  refine ⟨fun n => by simp [resultWhereFn, hg], List.filter_sublist, ?_, ?_⟩
+  · intro h; simp [entryWhereFn, h, guard]
+  · intro h
+    have : guard (f e) = false := by
+      cases hgv : guard (f e)
+      · rfl
+      · exact absurd ((hg _).mp hgv) h
+    simp [entryWhereFn, this]
+
+example : resultWhereFn (natCallE 0) [⟨[], .node .none [] [], [0]⟩, ⟨[], .node .none [.str ['a']] [], [1]⟩,
+    ⟨[], .node .none [.int 3] [], [2]⟩] = [⟨[], .node .none [.str ['a']] [], [1]⟩] := by rfl
+
+/-- each natural predicate of the harness raises somewhere (IndexError, KeyError, ZeroDivisionError, TypeError,
+a user-defined class, ValueError, StopIteration, AssertionError, UnicodeEncodeError; on '', None, 0, ints,
+non-ASCII) and returns true somewhere, except the one that never raises -/
+theorem natural_family_raises :
+    natCall 0 (.str []) = .raise ∧ natCall 0 .none = .raise ∧ natCall 0 (.int 5) = .raise ∧
+    natCall 1 (.str ['c']) = .raise ∧ natCall 2 (.int 0) = .raise ∧ natCall 2 (.str ['a']) = .raise ∧
+    natCall 3 .none = .raise ∧ natCall 4 (.str ['b']) = .raise ∧ natCall 5 (.str ['b']) = .raise ∧
+    natCall 6 (.str []) = .raise ∧ natCall 7 (.int 0) = .raise ∧ natCall 9 (.str ['é']) = .raise ∧
+    (∀ v, natCall 8 v ≠ .raise) ∧
+    natCallE 0 ⟨[], .node .none [] [], [0]⟩ = .raise ∧ natCallE 2 ⟨[], .node .none [] [], [0]⟩ = .raise ∧
+    natCallE 3 ⟨[], .node .none [.str ['a']] [], [0]⟩ = .raise ∧ natCallE 4 ⟨[], .node .none [] [], [0]⟩ = .raise := by
+  refine ⟨by decide, by decide, by decide, by decide, by decide, by decide, by decide, by decide, by decide,
+    by decide, by decide, by decide, ?_, by decide, by decide, by decide, by decide⟩
+  intro v; simp [natCall]
+
+example : natCall 0 (.str ['L']) = .ret true ∧ natCall 1 (.str ['a']) = .ret true ∧ natCall 2 (.int 5) = .ret true ∧
+    natCall 5 (.str ['b', 'a']) = .ret true ∧ natCall 9 (.str ['x']) = .ret true := by decide
+
+/-! ## 9. the other spellings of a one-level query: `q in x` and `x.<name>` -/
+
+/-- `q in entry` / `q in result` is true iff some child / grandchild satisfies the query; `entry.<name>` and
+`result.<name>` are exactly the children / grandchildren whose name is that string, in their order -/
+theorem contains_getattr_exact (ρ : Env) (e : Node) (children : List Node) (q : Query) (name : Str) :
+    (entryContains ρ e q = true ↔ ∃ c ∈ e.kids, q.eval ρ c = true) ∧
+    (resultContains ρ children q = true ↔ ∃ c ∈ grandchildren children, q.eval ρ c = true) ∧
+    entryGetattr ρ e name = e.kids.filter (fun c => decide (c.name = .str name)) ∧
+    resultGetattr ρ children name = (grandchildren children).filter (fun c => decide (c.name = .str name)) := by
+  refine ⟨?_, ?_, rfl, rfl⟩
+  · simp [entryContains, entryGetitem, List.filter_eq_nil_iff]
+  · simp [resultContains, resultGetitem, List.filter_eq_nil_iff]
+
+example : entryContains wEnv (top 0 wTop) qA = true ∧ entryContains wEnv (top 0 wTop) qB = false ∧
+    (entryGetattr wEnv (top 0 wTop) ['A']).map Node.path = [[0, 0]] := by decide
+
 end IV.Query
